@@ -12,6 +12,7 @@ from hypothesis import strategies as st
 
 from .. import configs, runcheck
 
+USES_KNOWN_CASES = True
 LEVEL = "exploration"
 RULE = (
     "Real runs of both samplers through FlowSampler.run (configurations from "
